@@ -308,6 +308,12 @@ fn user_write(root: &Path, rel: &str, bytes: &[u8], clock: &mut u64) {
     std::fs::rename(&tmp, &p).expect("user rename");
 }
 
+thread_local! {
+    /// directory links declared by the scenario being played (not files)
+    static LAYOUT_LINKS: std::cell::RefCell<std::collections::BTreeSet<String>> =
+        std::cell::RefCell::new(Default::default());
+}
+
 pub fn snapshot(root: &Path) -> BTreeMap<String, FileSnap> {
     let mut out = BTreeMap::new();
     fn walk(dir: &Path, root: &Path, out: &mut BTreeMap<String, FileSnap>) {
@@ -318,7 +324,8 @@ pub fn snapshot(root: &Path) -> BTreeMap<String, FileSnap> {
         for e in rd.flatten() {
             let p = e.path();
             let rel = p.strip_prefix(root).unwrap().to_string_lossy().into_owned();
-            if rel == ".redo" {
+            if rel == ".redo" || rel.ends_with("/.redo") {
+                // the state directory (wherever the first command put it)
                 continue;
             }
             let md = match std::fs::symlink_metadata(&p) {
@@ -326,9 +333,10 @@ pub fn snapshot(root: &Path) -> BTreeMap<String, FileSnap> {
                 Err(_) => continue,
             };
             if md.file_type().is_symlink() {
-                // a link to a directory is part of the scenario's layout; any
-                // other link (to a file, or dangling) is a file of the project
-                if std::fs::metadata(&p).map_or(false, |m| m.is_dir()) {
+                // the scenario's own directory links are part of its layout; any
+                // other link (to a file, to a directory, dangling) is a file of
+                // the project
+                if LAYOUT_LINKS.with(|l| l.borrow().contains(&rel)) {
                     continue;
                 }
                 let dest = std::fs::read_link(&p)
@@ -392,6 +400,9 @@ pub fn materialise(sc: &Scenario, paths: &Paths, clock: &mut u64) -> World {
         std::fs::create_dir_all(root.join(d)).expect("mkdir");
         w.dirs.insert(d.clone());
     }
+    LAYOUT_LINKS.with(|x| {
+        *x.borrow_mut() = sc.symlinks.iter().map(|(l, _)| l.clone()).collect();
+    });
     for (l, t) in &sc.symlinks {
         let _ = std::os::unix::fs::symlink(t, root.join(l));
     }
